@@ -89,9 +89,9 @@ def unit_create_table_statement():
     def setup(ex, st):
         rows, c = fresh(UFList(ROW6), "rows"); st.pc.extend(c)
         self = Ref("SqlFactory"); st.heap[self.oid] = {"_table": fresh(STR, "table")[0], "_indent": "    "}
-        st.frames[-1].env["self"] = self; st.ghost.update({"rows": rows, "this": self, "cols_done": 0, "nn_added": False, "seps_done": 0})
+        st.frames[-1].env["self"] = self; st.ghost.update({"rows": rows, "this": self, "cols_done": 0, "nn_added": False, "seps_done": 0, "size_kind": 0})
         def before_coldef(ex_, s):           # a new column definition starts
-            s.ghost["nn_added"] = False
+            s.ghost["nn_added"] = False; s.ghost["size_kind"] = 0
         ex.stmt_hooks_before["column_def = self._indent + field_name + ' ' + field_type"] = before_coldef
         def after_coldef(ex_, s):
             env = s.frames[-1].env; i = lift(env["_i0"]).z; r = s.ghost["rows"].at(i)
@@ -99,6 +99,10 @@ def unit_create_table_statement():
             ex_.obligations.append(Obligation("column-definition-starts-with-indent-name-blank-type-of-field-i", s.pc,
                                               cd == z3.Concat(z3.StringVal("    "), R.accessor(0, 0)(r), z3.StringVal(" "), R.accessor(0, 1)(r)), "post", props=["C19"]))
         ex.stmt_hooks["column_def = self._indent + field_name + ' ' + field_type"] = after_coldef
+        def size1(ex_, s): s.ghost["size_kind"] = 1
+        def size2(ex_, s): s.ghost["size_kind"] = 2
+        ex.stmt_hooks["column_def += '(' + str(length) + ')'"] = size1
+        ex.stmt_hooks["column_def += '(' + str(length) + ', ' + str(precision) + ')'"] = size2
         def after_nn(ex_, s): s.ghost["nn_added"] = True
         ex.stmt_hooks["column_def += ' not null'"] = after_nn
         def after_sep(ex_, s): s.ghost["seps_done"] = Sym(INT, G(s, "seps_done") + 1)
@@ -107,6 +111,11 @@ def unit_create_table_statement():
             env = s.frames[-1].env; i = lift(env["_i0"]).z; r = s.ghost["rows"].at(i)
             ex_.obligations.append(Obligation("column-i-is-appended-after-exactly-i-earlier-columns-and-i-separators", s.pc, z3.And(G(s, "cols_done") == i, G(s, "seps_done") == i), "post", props=["C19"]))
             ex_.obligations.append(Obligation("NOT-NULL-appended-exactly-for-fields-not-allowed-to-be-empty", s.pc, z3.BoolVal(bool(s.ghost["nn_added"])) == z3.Not(R.accessor(0, 4)(r)), "post", props=["C19"]))
+            typ = R.accessor(0, 1)(r); OIs = sort_of(Opt(INT)); ln = R.accessor(0, 2)(r); pr = R.accessor(0, 3)(r)
+            is_int_type = z3.Or(*[typ == t for t in ("bigint", "int", "smallint", "tinyint")])
+            want = z3.If(z3.Or(is_int_type, OIs.is_none(ln)), 0, z3.If(OIs.is_none(pr), 1, 2))
+            ex_.obligations.append(Obligation("size-suffix:-none-for-integer-types-or-without-length-(length)-without-precision-(length,-precision)-otherwise-also-for-precision-0", s.pc,
+                                              z3.IntVal(int(s.ghost.get("size_kind", 0))) == want, "post", props=["C19"]))
             s.ghost["cols_done"] = Sym(INT, G(s, "cols_done") + 1)
         ex.stmt_hooks_before["result += column_def"] = before_append
     def make(ctx):
@@ -167,6 +176,25 @@ def unit_sql_fields():
     return ProofUnit("sql.SqlFactory.sql_fields", "sql_fields: one tuple per field in order, name quoted iff keyword, type through the dialect", ["C19"], make, None)
 
 
+def unit_is_keyword():
+    def make(ctx):
+        out = []
+        for d, cname in DIALECTS.items():
+            def setup(ex, st, cname=cname):
+                info = S.find_class(cname)
+                res = list(ex.instantiate(st, info, [], {}))
+                assert len(res) == 1 and not isinstance(res[0][1], Raise)
+                obj = res[0][1]; word = fresh(STR, "word")[0]
+                st.frames[-1].env.update({"self": obj, "word": word}); st.ghost.update({"word": word, "this": obj})
+            def post(ex, st):
+                kws = st.heap[st.ghost["this"].oid]["_keywords"]; low = ex.absfun_s("str_lower", [z3.StringSort()], z3.StringSort())(G(st, "word"))
+                return Sym(BOOL, lift(st.ghost["__result__"]).z == z3.Or(*[low == k for k in sorted(kws)]))
+            out.append({"contract": Contract("sql.AnsiSqlDialect.is_keyword", setup, returns=[Clause(post, "a-name-is-a-keyword-iff-its-lower-case-form-is-in-the-dialect's-keyword-set-(SQL-keywords-are-case-insensitive)", props=["C19"])],
+                                             raises={}, expect=["return"], n_loops=0, modifies=[]), "label": d})
+        return out
+    return ProofUnit("sql.is_keyword", "is_keyword of the four dialects: case-insensitive membership in the dialect's keyword set (set built by the real constructor)", ["C19"], make, None, timeout=900)
+
+
 # ---------------------------------------------------------------- native: boundary table end to end, and the K-8 witnesses
 def ddl_for(rule, dialect, extra_fields=""):
     from cutplace import interface, sql
@@ -207,17 +235,18 @@ def unit_c19_table():
             for d in DIALECTS: yield d
         def shape_check(d):
             from cutplace import interface, sql
-            cid = interface.create_cid_from_string('d,format,delimited\nf,id,,,,Integer,0...99\nf,select,,x,...20,Text\nf,amount,,,,Decimal,-99.999...123.45\nf,kind,,x,2,Choice,"aa,bb"\nf,born,,,,DateTime,DD.MM.YYYY\n')
+            cid = interface.create_cid_from_string('d,format,delimited\nf,id,,,,Integer,0...99\nf,select,,x,...20,Text\nf,amount,,,,Decimal,-99.999...123.45\nf,kind,,x,2,Choice,"aa,bb"\nf,born,,,,DateTime,DD.MM.YYYY\nf,Table,,x,...5,Text\nf,weight,,,,Decimal,-12345...12345\n')
             ddl = sql.SqlFactory(cid, "t", sql.SQL_NAME_TO_DIALECT_MAP[d]).create_table_statement()
             lines = [l.strip().rstrip(",") for l in ddl.splitlines()[1:-1]]
             names = [l.split(" ")[0] for l in lines]
-            if names != ["id", '"select"', "amount", "kind", "born"]: return {"expected": "columns id, \"select\", amount, kind, born in CID order", "observed": names}
+            if names != ["id", '"select"', "amount", "kind", "born", '"Table"', "weight"]: return {"expected": "columns id, \"select\", amount, kind, born, \"Table\", weight in CID order (keywords quoted whatever their case)", "observed": names}
             nn = [l.endswith("not null") for l in lines]
-            if nn != [True, False, True, False, True]: return {"expected": "NOT NULL exactly for id, amount, born", "observed": lines}
+            if nn != [True, False, True, False, True, False, True]: return {"expected": "NOT NULL exactly for id, amount, born, weight", "observed": lines}
+            if "(5, 0)" not in lines[6] and "(5)" not in lines[6]: return {"expected": "decimal column for -12345...12345 with 5 digits and 0 fractional digits", "observed": lines[6]}
             if "(6, 3)" not in lines[2]: return {"expected": "decimal column with 6 total and 3 fractional digits", "observed": lines[2]}
             if "(20)" not in lines[1] or "(2)" not in lines[3]: return {"expected": "text columns with their upper length limit 20 / 2", "observed": (lines[1], lines[3])}
             return None
-        r2 = sweep("C19/table/statement shape per dialect", shape_cases(), shape_check, "bounded", "one 5-field CID (keyword name, empty flags, decimal rule, lengths) x 4 dialects", function="sql.SqlFactory", unit="C19.table")
+        r2 = sweep("C19/table/statement shape per dialect", shape_cases(), shape_check, "bounded", "one 7-field CID (keyword names in lower and mixed case, empty flags, decimal rules with and without fractional digits, lengths) x 4 dialects", function="sql.SqlFactory", unit="C19.table")
         res = [r1, r2]
         # K-8 witnesses
         w = []
